@@ -25,7 +25,7 @@ fn required_name(m: &str) -> String {
     m.strip_suffix(".lua").unwrap_or(m).to_string()
 }
 
-const FILE_STATES: &[&str] = &["absent", "present", "present-larger", "missing-dir", "readonly-dir", "is-a-directory"];
+const FILE_STATES: &[&str] = &["absent", "present", "present-larger", "present-empty", "present-prefix", "present-extended", "present-identical", "missing-dir", "readonly-dir", "is-a-directory"];
 
 #[derive(Clone, Debug)]
 struct Cell {
@@ -267,6 +267,23 @@ fn judge_cell(c: &Cell, seed: u64, case: u64, st: &mut Stats) {
             let _ = std::fs::write(&p, &old);
             (p, Some(old))
         }
+        "present-empty" | "present-prefix" | "present-extended" | "present-identical" => {
+            // the old content stands in every relation to the new output: nothing, a proper prefix of it (an
+            // earlier build cut short), the output followed by more text, exactly the output
+            let p = work.join("out.lua");
+            let old: Vec<u8> = match c.file_state {
+                "present-empty" => Vec::new(),
+                "present-prefix" => expected_bytes[..expected_bytes.len().min(1000).min(expected_bytes.len().saturating_sub(1))].to_vec(),
+                "present-extended" => {
+                    let mut o = expected_bytes.clone();
+                    o.extend_from_slice(b"print(\"appended by hand\")\n");
+                    o
+                }
+                _ => expected_bytes.clone(),
+            };
+            let _ = std::fs::write(&p, &old);
+            (p, Some(old))
+        }
         "missing-dir" => (work.join("no/such/dir/out.lua"), None),
         "readonly-dir" => {
             let d = work.join("ro");
@@ -368,7 +385,7 @@ fn judge_cell(c: &Cell, seed: u64, case: u64, st: &mut Stats) {
             if now.as_deref() != Some(&expected_bytes[..]) {
                 bad = Some(("driver:file-content", format!("output file has {} bytes, the compiler produced {}", now.map(|b| b.len()).unwrap_or(0), expected_bytes.len())));
             }
-        } else if c.file_state == "present" || c.file_state == "present-larger" || c.file_state == "absent" {
+        } else if c.file_state.starts_with("present") || c.file_state == "absent" {
             // all-or-nothing: untouched on failure
             if now != pre_content {
                 bad = Some(("driver:file-touched-on-failure", format!("output path changed although the command failed (now {:?} bytes)", now.map(|b| b.len()))));
@@ -470,7 +487,7 @@ impl Check for C20 {
         }
         Finish {
             level: "fault_enumeration",
-            rule: "exhaustive matrix: {run (lua on PATH = luamon CLI), -o FILE, -o -} x {no --require, --require mymod.lua, --require pkg.sub (dotted submodule), --require plain} x {--no-std, std} x {accepted, rejected, fails <=>, reaches <!>} x (for -o FILE) {FILE absent, present with short old content, present with a larger earlier build result, in a missing directory, in a read-only directory, is a directory}, 9 program variants per cell (hand-written, generated, and programs whose emitted Lua has 3-12 kB lines; rejected programs: 13 hand-written kinds (4 of them spread over several files, with errors planted at known file:line places that the output has to mention) plus an error-count ladder - N broken lines or an initialisation cycle through N definitions, N in 2..1024 around 256 and 512). Oracle per cell: exit status 0 iff compile (and run) succeed and the output is writable; errors printed; FILE byte-equal to the in-process compilation or untouched on failure; -o - stdout byte-equal; exactly one `require` call naming M (without a trailing .lua), placed after the preamble marker and not after the first emitted statement, executed once; std-free programs behave the same with and without --no-std. Non-trivial & distinct: matrix cells.".into(),
+            rule: "exhaustive matrix: {run (lua on PATH = luamon CLI), -o FILE, -o -} x {no --require, --require mymod.lua, --require pkg.sub (dotted submodule), --require plain} x {--no-std, std} x {accepted, rejected, fails <=>, reaches <!>} x (for -o FILE) {FILE absent, present with short old content, present with a larger earlier build result, present and empty, present holding a proper prefix of the new output, the new output plus appended text, exactly the new output, in a missing directory, in a read-only directory, is a directory}, 9 program variants per cell (hand-written, generated, and programs whose emitted Lua has 3-12 kB lines; rejected programs: 13 hand-written kinds (4 of them spread over several files, with errors planted at known file:line places that the output has to mention) plus an error-count ladder - N broken lines or an initialisation cycle through N definitions, N in 2..1024 around 256 and 512). Oracle per cell: exit status 0 iff compile (and run) succeed and the output is writable; errors printed; FILE byte-equal to the in-process compilation or untouched on failure; -o - stdout byte-equal; exactly one `require` call naming M (without a trailing .lua), placed after the preamble marker and not after the first emitted statement, executed once; std-free programs behave the same with and without --no-std. Non-trivial & distinct: matrix cells.".into(),
             extra: J::obj().with("matrix_cells", J::Int(cells().len() as i64)),
             assumptions: vec![
                 "the `lua` the driver spawns is the luamon CLI (no real Lua in the sandbox); when running as root a read-only directory is writable, that column then expects success".into(),
